@@ -617,12 +617,15 @@ def VStmt.hasPos : VStmt → Bool
 
 /-- text → netlist: what the post-parse model (`Model/Netlist.lean`) builds from the model's own reading of the text;
 `none`: the text is rejected, does not hold exactly one module, or uses a name outside the modelled domain (`toSel`).
-Positional pins (`VStmt.hasPos`) make the real `module()` raise; they set `err`. -/
+Positional pins (`VStmt.hasPos`) make the real `module()` raise; they set `err` — and so does a sized constant the transformer's
+`sigsel` raises on (`RStmt.ok` false: width 0 as in `0'b1`, a digit outside the base as in `1'b2`; audit finding 10(b): the guard is
+part of the function the theorems speak about, not only of the driver). -/
 def circOfText (cfg : KV.Netlist.Cfg) (tl : KV.Netlist.TL) (text : String) : Option KV.Netlist.Circ :=
   match parseVerilog text with
   | some [m] =>
     match toRs m.stmts with
-    | some rs => some ((KV.Netlist.module cfg tl m.ports (rs.map KV.Netlist.transform)).failIf (m.stmts.any VStmt.hasPos))
+    | some rs => some ((KV.Netlist.module cfg tl m.ports (rs.map KV.Netlist.transform)).failIf
+        (m.stmts.any VStmt.hasPos || !(rs.all KV.Netlist.RStmt.ok)))
     | none => none
   | _ => none
 
